@@ -71,6 +71,11 @@ def gen_case(g):
     options = {"display_graded": rng.random() < 0.5, "display_reverse": rng.random() < 0.5,
                "display_inverse": rng.random() < 0.5, "display_exponent": signs[0],
                "display_multiply": signs[1]}
+    if rng.random() < 0.25:
+        # "every setting of the display options" includes whatever the other options are set to:
+        # the text must denote the polynomial under the retain settings too
+        options["retain_names"] = rng.random() < 0.4
+        options["retain_coefficients"] = rng.random() < 0.5
     return {"poly": poly, "options": options, "fn": fn}
 
 
@@ -102,7 +107,8 @@ def run_case(case, ctx):
     facts = {"op": fn, "coef_kind": spec["kind"], "display_multiply": opts["display_multiply"],
              "display_exponent": opts["display_exponent"], "ndim": len(spec["shape"]),
              "display_graded": opts["display_graded"], "display_reverse": opts["display_reverse"],
-             "display_inverse": opts["display_inverse"]}
+             "display_inverse": opts["display_inverse"],
+             "retain": f"{opts.get('retain_names', '')},{opts.get('retain_coefficients', '')}"}
     elements = pm.ravel().tolist() if pm.ndim else [pm[()]]
     nontrivial = any(e.nterms() >= 2 or any(v[0] < 0 or abs(v[0]) == 1 for v in e.t.values())
                      for e in elements)
